@@ -86,7 +86,9 @@ DEFAULT_PROFILE = {
     'hyphen_imports': True,       # importing a hyphenated object name from another generated module (D16)
     'enum_defval_via_type': True,  # D22
     'multi_import_clauses': True,
-    'allow_no_imports': True,     # a module without any IMPORTS clause (D30)
+    'allow_no_imports': True,
+    'oneline_short_texts': False,  # UNITS / DISPLAY-HINT / PRODUCT-RELEASE / capabilities REFERENCE without line breaks
+     # a module without any IMPORTS clause (D30)
 }
 
 
@@ -110,7 +112,7 @@ def ctext(alphabet, min_size=0, max_size=20):
 
 _UNI = [chr(c) for c in list(range(0x20, 0x7f)) + list(range(0xa0, 0x180)) + [0x394, 0x416, 0x5d0, 0x4e2d, 0x6587, 0x3042,
                                                                          0x1f600, 0x1d11e, 0x2028, 0x85, 0xfeff, 0x9,
-                                                                         0xb, 0xc, 0x7f, 0x1, 0x0]
+                                                                         0xb, 0xc, 0x7f, 0x1]
         if chr(c) != '"']
 
 
@@ -146,6 +148,12 @@ def text_strategy(kind):
     if kind == 'nasty':
         chunk = st.one_of(st.sampled_from(NASTY_CHUNKS), ctext(PLAIN_TEXT_ALPHABET, max_size=12),
                           utext(6))
+        return st.lists(chunk, min_size=0, max_size=6).map(lambda l: ''.join(l).replace('"', ''))
+    if kind == 'pysafe':
+        # the 'nasty' alphabet minus backslashes (class of finding D18)
+        chunks = [c for c in NASTY_CHUNKS if '\\' not in c]
+        chunk = st.one_of(st.sampled_from(chunks), ctext(PLAIN_TEXT_ALPHABET, max_size=12),
+                          utext(6).map(lambda t: t.replace('\\', '/')))
         return st.lists(chunk, min_size=0, max_size=6).map(lambda l: ''.join(l).replace('"', ''))
     raise KeyError(kind)
 
@@ -265,6 +273,15 @@ class Builder(object):
 
     def opt_txt(self):
         return self.txt() if self.flag() else None
+
+    def line_txt(self):
+        t = self.txt()
+        if self.prof['oneline_short_texts']:
+            t = re.sub(r'[\r\n\x0b\x0c\x1c-\x1e\x85\u2028\u2029]+', ' ', t)
+        return t
+
+    def opt_line_txt(self):
+        return self.line_txt() if self.flag() else None
 
     def status(self, v1=False):
         if v1:
@@ -540,7 +557,7 @@ def _gen_type_decl(b, mod):
     if draw(st.integers(0, 5)) == 0 and isinstance(syn['base'], str) and syn['base'] in ('INTEGER', 'OCTET STRING') and not is_tc:
         syn['tag'] = [draw(st.sampled_from(('APPLICATION', 'UNIVERSAL'))), draw(st.integers(0, 30))]
     if is_tc:
-        d = {'k': 'tc', 'name': name, 'display': b.opt_txt() if info['kind'] in ('int', 'octets') else None,
+        d = {'k': 'tc', 'name': name, 'display': b.opt_line_txt() if info['kind'] in ('int', 'octets') else None,
              'status': b.status(), 'descr': b.txt(), 'ref': b.opt_txt(), 'syntax': syn}
     else:
         d = {'k': 'td', 'name': name, 'syntax': syn}
@@ -603,7 +620,7 @@ def _gen_scalar(b, mod):
     oid, num = b.new_oid(mod)
     b.reg_node(mod, name, num)
     acc = _access(draw, v1)
-    d = {'k': 'ot', 'role': 'scalar', 'name': name, 'syntax': syn, 'units': None if v1 else b.opt_txt(),
+    d = {'k': 'ot', 'role': 'scalar', 'name': name, 'syntax': syn, 'units': None if v1 else b.opt_line_txt(),
          'access': acc, 'status': b.status(v1), 'descr': b.txt() if (not v1 or b.flag()) else None,
          'ref': b.opt_txt(), 'augments': None, 'index': None, 'defval': b.defval(mod, info), 'oid': oid,
          'num': list(num), 'info': info}
@@ -642,7 +659,7 @@ def _gen_table(b, mod):
         b.used_oids.add(cnum)
         b.reg_node(mod, cname, cnum)
         acc = _access(draw, v1, True)
-        cols.append({'k': 'ot', 'role': 'column', 'name': cname, 'syntax': syn, 'units': None if v1 else b.opt_txt(),
+        cols.append({'k': 'ot', 'role': 'column', 'name': cname, 'syntax': syn, 'units': None if v1 else b.opt_line_txt(),
                      'access': acc, 'status': b.status(v1), 'descr': b.txt() if (not v1 or b.flag()) else None,
                      'ref': b.opt_txt(), 'augments': None, 'index': None, 'defval': b.defval(mod, info),
                      'oid': {'first': ['ref', mod['name'], rname], 'arcs': [['n', carc]]}, 'num': list(cnum),
@@ -739,7 +756,7 @@ def _gen_tt(b, mod):
     number = draw(st.one_of(st.integers(0, 20), st.sampled_from((0, 1, 6, 255, 65535, U32))))
     num = tuple(n['oid']) + (0, number)
     while num in b.used_oids:
-        number += 1
+        number = (number + 1) % (U32 + 1)
         num = tuple(n['oid']) + (0, number)
     b.used_oids.add(num)
     vars_ = _pick_refs(b, mod, [o for o in b.objects if o['role'] in ('scalar', 'column')], 0, 5)
@@ -867,8 +884,8 @@ def _gen_ac(b, mod):
                                                                        max_size=2, unique_by=lambda x: x['name']))]
                 vars_.append(v)
             supports.append({'module': mod['name'], 'includes': inc, 'variations': vars_})
-    return [{'k': 'ac', 'name': name, 'release': b.txt(), 'status': b.status(), 'descr': b.txt(),
-             'ref': b.opt_txt(), 'supports': supports, 'oid': oid, 'num': list(num)}]
+    return [{'k': 'ac', 'name': name, 'release': b.line_txt(), 'status': b.status(), 'descr': b.txt(),
+             'ref': b.opt_line_txt(), 'supports': supports, 'oid': oid, 'num': list(num)}]
 
 
 _BODY_ALPHABET = 'abcdefghijklmnopqrstuvwxyzABCDFGHIJKLMOPQRSTUVWXYZ0123456789 \t\n:=|"(),.-[]<>'
